@@ -149,8 +149,9 @@ def api_roles(fn) -> Dict[str, str]:
     for n in ast.walk(fn):
         if isinstance(n, ast.Assign) and len(n.targets) == 1 and isinstance(n.targets[0], ast.Name) and isinstance(n.value, ast.Call) \
                 and call_name(n.value) == "dict" and any(isinstance(c, ast.Call) and (call_name(c) or "").endswith("variable_metadata_function") for c in ast.walk(n.value)):
-            direct = any(isinstance(c, ast.Call) and (call_name(c) or "").endswith("variable_metadata_function") and c.args and isinstance(c.args[0], ast.Name)
-                         and c.args[0].id == pv for c in ast.walk(n.value))
+            direct = any(isinstance(c, ast.Call) and (call_name(c) or "").endswith("variable_metadata_function") and c.args and (
+                (isinstance(c.args[0], ast.Name) and c.args[0].id == pv) or (".symbol" in norm(c.args[0]) and "nan" not in norm(c.args[0]).lower()))
+                for c in ast.walk(n.value))
             roles.setdefault(n.targets[0].id, "metadata" if direct else "independent_metadata")
         if isinstance(n, ast.Assign) and isinstance(n.targets[0], ast.Subscript) and isinstance(n.targets[0].value, ast.Name) \
                 and norm(n.targets[0].slice).endswith(".symbol.name()") and isinstance(n.value, ast.Name):
